@@ -287,6 +287,38 @@ func c18ZapLevel(l slog.Level) zapcore.Level {
 	return zapcore.DebugLevel
 }
 
+// c18MutValuer resolves to the CURRENT value of a counter the property changes between records.
+type c18MutValuer struct{ p *int }
+
+func (v c18MutValuer) LogValue() slog.Value { return slog.IntValue(*v.p) }
+
+// c18Shape renders an attribute WITHOUT resolving it: what the caller handed over.
+func c18Shape(a slog.Attr) string {
+	switch a.Value.Kind() {
+	case slog.KindGroup:
+		var sb strings.Builder
+		fmt.Fprintf(&sb, "%q:group[", a.Key)
+		for _, m := range a.Value.Group() {
+			sb.WriteString(c18Shape(m))
+			sb.WriteByte(' ')
+		}
+		sb.WriteByte(']')
+		return sb.String()
+	case slog.KindLogValuer:
+		return fmt.Sprintf("%q:valuer(%T)", a.Key, a.Value.Any())
+	}
+	return fmt.Sprintf("%q:%v", a.Key, a.Value.Kind())
+}
+
+func c18Shapes(as []slog.Attr) string {
+	var sb strings.Builder
+	for _, a := range as {
+		sb.WriteString(c18Shape(a))
+		sb.WriteByte(';')
+	}
+	return sb.String()
+}
+
 func propC18(t *rapid.T) {
 	sink := &memSink{}
 	th := zapcore.Level(rapid.IntRange(-1, 3).Draw(t, "coreThreshold"))
@@ -355,7 +387,11 @@ func propC18(t *rapid.T) {
 			for j := 0; j < na; j++ {
 				as = append(as, genC18Attr(t, 2, false))
 			}
+			shapeBefore := c18Shapes(as)
 			n.h, n.ref = p.h.WithAttrs(as), p.ref.WithAttrs(as)
+			if after := c18Shapes(as); after != shapeBefore {
+				t.Fatalf("WithAttrs modified the attributes the caller handed over:\n before: %s\n after:  %s", clipS(shapeBefore), clipS(after))
+			}
 			n.steps = append(n.steps, c18Step{attrs: as})
 			hist = append(hist, fmt.Sprintf("#%d=#%d.WithAttrs(%v)", n.id, p.id, as))
 			if len(as) > 0 {
@@ -372,6 +408,9 @@ func propC18(t *rapid.T) {
 		}
 		nodes = append(nodes, n)
 	}
+	// a group attribute the caller keeps and reuses for several records; it holds a LogValuer whose result changes
+	counter := 0
+	sharedGroup := slog.Group("shared", slog.String("s", "v"), slog.Any("now", c18MutValuer{&counter}), slog.Group("in", slog.Any("n", c18MutValuer{&counter})))
 	// log through every handler (children before parents and again in a drawn order)
 	order := append(rapid.Permutation(nodes).Draw(t, "order"), rapid.Permutation(nodes).Draw(t, "order2")...)
 	emptyViaValuer := false
@@ -390,6 +429,10 @@ func propC18(t *rapid.T) {
 		for j := 0; j < nr; j++ {
 			r.AddAttrs(genC18Attr(t, 2, false))
 		}
+		if rapid.IntRange(0, 2).Draw(t, "reuseSharedGroup") == 0 {
+			counter++
+			r.AddAttrs(sharedGroup)
+		}
 		var actual []slog.Attr
 		r.Attrs(func(a slog.Attr) bool {
 			actual = append(actual, a)
@@ -403,8 +446,12 @@ func propC18(t *rapid.T) {
 			t.Fatalf("handler #%d Enabled(%v)=%v but the core enables mapped level %v: %v", n.id, lvl, got, zl, wantHandled)
 		}
 		before := len(sink.writes)
+		shapeBefore := c18Shapes(actual)
 		if err := n.h.Handle(context.Background(), r); err != nil {
 			t.Fatalf("Handle: %v", err)
+		}
+		if after := c18Shapes(actual); after != shapeBefore {
+			t.Fatalf("Handle modified the attributes the caller handed over:\n before: %s\n after:  %s", clipS(shapeBefore), clipS(after))
 		}
 		handled := len(sink.writes) - before
 		if (handled == 1) != wantHandled || handled > 1 {
